@@ -141,7 +141,10 @@ def exec_lstsq(ctx, c):
     if got.shape != (n,):
         return Failure("C16:lstsq-shape", dict(rendered, got=list(got.shape)))
     smin = min([s[i] for i in keep], default=1.0)
-    tol = 1e-9 * (np.linalg.norm(want) + np.linalg.norm(b) / smin) + 1e-300
+    # backward-stable SVD: the computed singular subspaces are off by ~eps * s_max / gap, and neighbouring singular
+    # values are separated by >= 1.5 here, so the forward error scales with eps * cond(kept part)
+    scale = np.linalg.norm(want) + np.linalg.norm(b) / smin
+    tol = (1e-9 + 100 * np.finfo(float).eps * float(s[0]) / smin) * scale + 1e-300
     err = float(np.linalg.norm(got - want))
     if not np.all(np.isfinite(got)) or err > tol:
         return Failure("C16:lstsq-not-truncated-least-squares-solution",
@@ -326,7 +329,7 @@ def exec_view(ctx, spec):
             if jac.shape != wj.shape:
                 fail = Failure("C16:view-jacobian-shape", dict(rendered, view=tag, got=list(jac.shape), expected=list(wj.shape)))
                 break
-            tol = fd_tolerance(spec, e0, wt, wv, dnat, scalar, wj)
+            tol = fd_tolerance(spec, e0, wt, wv, dnat, scalar, wj, knobs=knobs)
             if np.any(np.abs(jac - wj) > tol):
                 fail = Failure("C16:view-jacobian-differs", dict(rendered, view=tag, max_error=float(np.max(np.abs(jac - wj))),
                                                                  tolerance=np.asarray(tol).tolist(), got=jac.tolist(), expected=wj.tolist()))
@@ -339,11 +342,15 @@ def exec_view(ctx, spec):
     return fail
 
 
-def fd_tolerance(spec, e0, wt, wv, dnat, scalar, want_jac):
-    """forward-difference truncation bound for the Jacobian of a view, from the family's second derivatives:
-    |error_ij| <= 0.5 * step_j * w_t,i * w_v,j * max|d2f_i/dx_j^2| * dnat_j   (vector view), and for the scalar view
-    2 * sum_i |e_i| * that.  A factor 4 plus a small relative term covers rounding."""
-    A, B, _ = OF.coefficients(spec)
+def fd_tolerance(spec, e0, wt, wv, dnat, scalar, want_jac, knobs=None):
+    """forward-difference error bound for the Jacobian of a view.
+    truncation, from the family's second derivatives:
+      |error_ij| <= 0.5 * step_j * w_t,i * w_v,j * max|d2f_i/dx_j^2| * dnat_j   (vector view)
+    rounding of the two function values that are subtracted (magnitude M_i of the terms summed in f_i - target_i):
+      |error_ij| <= 2 * 16 eps * w_t,i * M_i / (step_j / w_v,j) * dnat_j
+    and for the scalar view 2 * sum_i |e_i| * (both).  A factor 4 on the truncation term plus a small relative term
+    covers the rest (the step actually taken differs from step_j by an ulp of the knob value)."""
+    A, B, c = OF.coefficients(spec)
     fam = spec["family"]
     if fam == "lin":
         d2 = np.zeros_like(A)
@@ -352,12 +359,17 @@ def fd_tolerance(spec, e0, wt, wv, dnat, scalar, want_jac):
     else:
         d2 = A * A          # |d2/dx_j^2 sin(A x)| <= A_ij^2
     steps = np.array(spec["steps"], dtype=float)
-    err = 0.5 * steps[None, :] * wt[:, None] * wv[None, :] * d2 * dnat[None, :]
+    err = 4.0 * 0.5 * steps[None, :] * wt[:, None] * wv[None, :] * d2 * dnat[None, :]
+    if knobs is not None:
+        k = np.abs(np.asarray(knobs, dtype=float))
+        mag = np.abs(A) @ k + (np.abs(B) @ (k * k) if fam == "quad" else 0.0) + np.abs(c) \
+            + np.abs(np.array(spec["targets"], dtype=float)) + 1.0
+        err = err + 2 * 16 * np.finfo(float).eps * (wt * mag)[:, None] / (steps / wv)[None, :] * dnat[None, :]
     if scalar:
         bound = 2.0 * np.abs(e0) @ err
     else:
         bound = err
-    return 4.0 * bound + 1e-6 * (np.abs(want_jac) + 1.0)
+    return bound + 1e-6 * (np.abs(want_jac) + 1.0)
 
 
 def view_reuse(b, spec, rendered, classes):
@@ -392,7 +404,7 @@ def view_reuse(b, spec, rendered, classes):
                 want_jac = 2 * e0 @ J if scalar else J
                 val = view(xs)
                 jac = np.asarray(view.get_jacobian(xs), dtype=float)
-                tol = fd_tolerance(spec, e0, wt, wv, dnat, scalar, np.asarray(want_jac))
+                tol = fd_tolerance(spec, e0, wt, wv, dnat, scalar, np.asarray(want_jac), knobs=x_native * wv)
                 if not np.allclose(val, want_val, rtol=1e-10, atol=1e-12):
                     return Failure("C16:reused-view-value-differs", dict(rendered, stage=stage, scalar=scalar))
                 if jac.shape != np.asarray(want_jac).shape or np.any(np.abs(jac - want_jac) > tol):
